@@ -347,7 +347,12 @@ def main(argv=None):
     dead = [d for rep in reports for d in rep.get("dead_antecedents", [])]
     if dead:
         print(f"  note: {len(dead)} implication(s) in post clauses whose antecedent is unreachable on every path (vacuous there; listed with -v and in the evidence file)")
+    dead_alt = [f"{rep['target'].split(':')[-1]}: {d}" for rep in reports for d in rep.get("dead_alternatives", [])]
+    if dead_alt:
+        print(f"  note: {len(dead_alt)} input/outcome alternative(s) occur only on infeasible paths (never reach the end of the function; listed with -v and in the evidence file)")
     if a.v:
+        for d in dead_alt:
+            print("   dead alternative:", d)
         for d in dead:
             print("   dead antecedent:", d)
         for rep in reports:
@@ -423,6 +428,7 @@ def write_evidence(prop, tier, seed, mod, reg, reports, agg, bounded, live, find
         "fixed_findings": [{"id": f["id"], "commit": f.get("commit"), "what": f["what"]} for f in findings if f.get("status") == "fixed"],
         "vacuity_guard": {"implication_antecedents_reached_on_some_path": sum(r.get("implications_covered", 0) for r in reports),
                           "implication_antecedents_dead_on_every_path": [d for r in reports for d in r.get("dead_antecedents", [])],
+                          "alternatives_only_on_infeasible_paths": [f"{r['target']}: {d}" for r in reports for d in r.get("dead_alternatives", [])],
                           "note": "every function must complete at least one path (else checker error); an obligation missing relative to obligations_baseline.json is a checker error; "
                                   "dead antecedents are implications of post clauses that are vacuous on this tree (reported, not counted as proof of their consequent)"},
         "undecided": undecided,
